@@ -3,7 +3,6 @@ package checks
 import (
 	"fmt"
 	"math"
-	"reflect"
 	"strings"
 
 	"verifmc/fw"
@@ -62,14 +61,6 @@ func forwardLC(content []rune, p int) (int, int) {
 	return line, col
 }
 
-func scannerPos(s *rio.StringScanner) (int, bool) {
-	f := reflect.ValueOf(s).Elem().FieldByName("position")
-	if !f.IsValid() {
-		return 0, false
-	}
-	return int(f.Int()), true
-}
-
 func c11Apply(s *rio.StringScanner, op c11Op) rune {
 	switch op {
 	case opRead:
@@ -101,13 +92,10 @@ func c11Apply(s *rio.StringScanner, op c11Op) rune {
 	return -2
 }
 
-func c11Len(s *rio.StringScanner) int {
-	f := reflect.ValueOf(s).Elem().FieldByName("content")
-	if !f.IsValid() {
-		return 64
-	}
-	return f.Len()
-}
+// c11ContentLen: number of characters of the content the current graph is explored for
+var c11ContentLen int
+
+func c11Len(s *rio.StringScanner) int { return c11ContentLen }
 
 func c11Model(content []rune, p int, op c11Op) (int, rune) {
 	n := len(content)
@@ -159,6 +147,7 @@ func c11Content(i int64, maxLen int) string {
 
 func c11Run(c *fw.Ctx, content string, depthCap int) {
 	runes := []rune(content)
+	c11ContentLen = len(runes)
 	type node struct {
 		hist []c11Op
 		p    int
@@ -191,10 +180,8 @@ func c11Run(c *fw.Ctx, content string, depthCap int) {
 		// two histories are merged only if every field agrees (identical fields = identical futures);
 		// a key made of position/Line()/Column() alone would merge states that differ in
 		// bookkeeping the observers hide
-		if _, ok := scannerPos(s); ok {
-			return fmt.Sprintf("%x", snap.Hash(s))
-		}
-		return c11HistStr(h)
+		// (no field is addressed by name: the walker hashes whatever private fields the struct has)
+		return fmt.Sprintf("%x", snap.Hash(s))
 	}
 	// observe checks all state-local laws on the state reached by h (model cursor p).
 	observe0 := func(h []c11Op, p int) {
@@ -272,6 +259,13 @@ func c11Run(c *fw.Ctx, content string, depthCap int) {
 		if len(nd.hist) >= depthCap {
 			capped = true
 			continue
+		}
+		if states > 60000 {
+			// a scanner whose private state never repeats (say, a call counter) has no finite graph:
+			// report the cap instead of unrolling histories forever
+			capped = true
+			c.Count("state_cap_hit_contents", 1)
+			break
 		}
 		for op := opRead; op <= opUnreadZero; op++ {
 			s := build(nd.hist)
